@@ -650,4 +650,155 @@ theorem checkPipelineSection_structure {o : Oracle} {fl : MachineFlags} {P : Dic
       obtain ⟨cfgU, rfl, rfl⟩ := deepRw_eq_obj hP
       exact ⟨kind, cfgU, kd, outn, hkind, rfl, hkd, hc, hM⟩
 
+theorem checkPipelineSection_machine {o : Oracle} {fl : MachineFlags} {P : Dict} {l r : ImgInfo}
+    {m m' : CState} {out : Dict} (hfresh : FreshFor fl m) (hwf : Merge.wfDict P = true)
+    (h : checkPipelineSection o fl registry [("pipeline", .obj P)] l r m = .ok (out, m')) :
+    machineCheck o fl registry (Merge.deepRwD P) l r m = .ok m' ∧ out = [("pipeline", .obj m'.pipelineCfg)] := by
+  rw [checkPipelineSection_eq o fl P l r m hfresh hwf] at h
+  cases hmc : machineCheck o fl registry (Merge.deepRwD P) l r m with
+  | error e => simp [hmc] at h
+  | ok m1 =>
+    simp only [hmc, Except.ok.injEq, Prod.mk.injEq] at h
+    obtain ⟨h1, h2⟩ := h
+    subst h2
+    exact ⟨rfl, h1.symm⟩
+
+theorem wf_of_step {P : Dict} (hwf : Merge.wfDict P = true) {n : String} {cfgU : Dict}
+    (h : Dict.lookup P n = some (.obj cfgU)) :
+    Merge.wfDict (Merge.deepRwD cfgU) = true ∧ Merge.deepRwD (Merge.deepRwD cfgU) = Merge.deepRwD cfgU := by
+  have := Merge.wfDict_mem hwf (Merge.mem_of_lookup P n _ h)
+  exact ⟨Merge.wfDict_deepRwD cfgU (by simpa using this), Merge.deepRwD_idem cfgU⟩
+
+/-- **(1) steps and user values kept**: the result has the user's steps in the user's order; every
+    key the user gave in a step is in the returned step with the user's value (the strings `"NaN"`,
+    `"inf"`, `"-inf"` turned into floats by `update_conf`), and the user's keys are the first keys of
+    the returned step, in the user's order -/
+theorem checkPipelineSection_user_kept {o : Oracle} {fl : MachineFlags} {P : Dict} {l r : ImgInfo}
+    {m m' : CState} {out : Dict} (hfresh : FreshFor fl m) (hwf : Merge.wfDict P = true)
+    (h : checkPipelineSection o fl registry [("pipeline", .obj P)] l r m = .ok (out, m')) :
+    ∃ M, out = [("pipeline", .obj M)] ∧ Dict.keys M = Dict.keys P ∧
+      (∀ n ∈ Dict.keys P, ∃ cfgU, Dict.lookup P n = some (.obj cfgU)) ∧
+      ∀ n cfgU, Dict.lookup P n = some (.obj cfgU) →
+        ∃ outn, Dict.lookup M n = some (.obj outn) ∧
+          (∀ k u, Dict.lookup cfgU k = some u → Dict.lookup outn k = some (Merge.deepRw u)) ∧
+          (Dict.keys outn).take cfgU.length = Dict.keys cfgU := by
+  obtain ⟨hout, hkeys, hsteps⟩ := checkPipelineSection_structure hfresh hwf h
+  refine ⟨m'.pipelineCfg, hout, hkeys, ?_, ?_⟩
+  · intro n hn
+    obtain ⟨_, cfgU, _, _, _, hP, _⟩ := hsteps n hn
+    exact ⟨cfgU, hP⟩
+  · intro n cfgU hP
+    obtain ⟨kind, cfgU', kd, outn, _, hP', hkd, hc, hM⟩ := hsteps n (Merge.mem_keys_of_lookup hP)
+    rw [hP] at hP'; cases hP'
+    obtain ⟨hcw, hcf⟩ := wf_of_step hwf hP
+    obtain ⟨_, _, _, _, _, _, ⟨X, hX⟩, hkept, _, _, _⟩ := construct_facts (kindDesc_some hkd).1 hcw hcf hc
+    refine ⟨outn, hM, ?_, ?_⟩
+    · intro k u hk
+      apply hkept
+      rw [Merge.lookup_deepRwD, hk]; rfl
+    · rw [hX, Merge.keys_deepRwD]
+      apply List.take_left'
+      simp [Dict.keys]
+
+/-- **(2) completion**: in every returned step, every parameter the documentation lists for the
+    step's method is present — with the documented default when the user omitted it (for the
+    parameters whose default the documentation settles) — except the one documented as optional,
+    which stays absent when omitted; and no key is added that is not a documented parameter -/
+theorem checkPipelineSection_completed {o : Oracle} {fl : MachineFlags} {P : Dict} {l r : ImgInfo}
+    {m m' : CState} {out : Dict} (hfresh : FreshFor fl m) (hwf : Merge.wfDict P = true)
+    (h : checkPipelineSection o fl registry [("pipeline", .obj P)] l r m = .ok (out, m')) :
+    ∀ n cfgU, Dict.lookup P n = some (.obj cfgU) →
+      ∃ kind kd meth d outn,
+        Machine.Kind.ofName? (Machine.kindOf n) = some kind ∧ kindDesc? registry kind.name = some kd ∧
+        Dict.lookup (Merge.deepRwD cfgU) kd.methodKey = some (.str meth) ∧
+        docClass? kind.name meth = some d ∧
+        Dict.lookup m'.pipelineCfg n = some (.obj outn) ∧
+        (∀ p ∈ d.params,
+          match p.default with
+          | .optional => Dict.lookup cfgU p.name = none → Dict.lookup outn p.name = none
+          | .value v => ∃ x, Dict.lookup outn p.name = some x ∧ (Dict.lookup cfgU p.name = none → x = v)
+          | .unsettled => (Dict.lookup outn p.name).isSome = true) ∧
+        (∀ k ∈ Dict.keys outn, k ∈ Dict.keys cfgU ∨ ∃ p ∈ d.params, p.name = k) := by
+  obtain ⟨_, _, hsteps⟩ := checkPipelineSection_structure hfresh hwf h
+  intro n cfgU hP
+  obtain ⟨kind, cfgU', kd, outn, hkind, hP', hkd, hc, hM⟩ := hsteps n (Merge.mem_keys_of_lookup hP)
+  rw [hP] at hP'; cases hP'
+  obtain ⟨hcw, hcf⟩ := wf_of_step hwf hP
+  obtain ⟨hkdm, hkk⟩ := kindDesc_some hkd
+  obtain ⟨meth, c, hmeth, hall, hmn, hcc, _, hkept, _, _, _⟩ := construct_facts hkdm hcw hcf hc
+  have hwfa := generated_wf_of_mem hall
+  obtain ⟨hdef, hkeys⟩ := classCheck_defaults_added hwfa hcc
+  -- the documented class
+  have hdoc := generated_defaults_documented
+  rw [List.all_eq_true] at hdoc
+  have hdoc1 := hdoc _ hall
+  rw [List.all_eq_true] at hdoc1
+  have hdoc2 := hdoc1 meth hmn
+  simp only at hdoc2
+  cases hd : docClass? kd.kind meth with
+  | none => simp [hd] at hdoc2
+  | some d =>
+    simp only [hd] at hdoc2
+    simp only [defaultsAgree, Bool.and_eq_true, List.all_eq_true, List.any_eq_true, beq_iff_eq] at hdoc2
+    obtain ⟨⟨⟨⟨hparams, hdk⟩, _⟩, _⟩, _⟩ := hdoc2
+    rw [hkk] at hd
+    refine ⟨kind, kd, meth, d, outn, hkind, hkd, hmeth, hd, hM, ?_, ?_⟩
+    · intro p hp
+      have hpa := hparams p hp
+      have homit : Dict.lookup cfgU p.name = none → Dict.lookup outn p.name = defaultOf c.actions p.name := by
+        intro hn
+        apply hdef
+        rw [Merge.lookup_deepRwD, hn]; rfl
+      cases hpd : p.default with
+      | optional =>
+        simp only [hpd, Bool.and_eq_true, Option.isNone_iff_eq_none] at hpa
+        simp only
+        intro hn
+        rw [homit hn, hpa.1]
+      | value v =>
+        simp only [hpd, beq_iff_eq] at hpa
+        simp only
+        cases hu : Dict.lookup cfgU p.name with
+        | none =>
+          exact ⟨v, by rw [homit hu, hpa], fun _ => rfl⟩
+        | some u =>
+          exact ⟨Merge.deepRw u, hkept _ _ (by rw [Merge.lookup_deepRwD, hu]; rfl), by intro hc; cases hc⟩
+      | unsettled =>
+        simp only [hpd] at hpa
+        simp only
+        cases hu : Dict.lookup cfgU p.name with
+        | none => rw [homit hu]; exact hpa
+        | some u => rw [hkept _ _ (by rw [Merge.lookup_deepRwD, hu]; rfl)]; rfl
+    · intro k hk
+      rw [hkeys, Merge.keys_deepRwD] at hk
+      rcases List.mem_append.1 hk with h1 | h1
+      · exact Or.inl h1
+      · right
+        obtain ⟨p, hp, hpn⟩ := hdk k (List.mem_filter.1 h1).1
+        exact ⟨p, hp, hpn⟩
+
+/-- the `pipeline_cfg` a successful check leaves is itself in the form `update_conf` delivers -/
+theorem checked_wf {o : Oracle} {l r : ImgInfo} {P' M : Dict}
+    (hw : Merge.wfDict P' = true) (hf : Merge.deepRwD P' = P') (hs : StepsChecked o l r P' M) :
+    Merge.wfDict M = true ∧ Merge.deepRwD M = M := by
+  obtain ⟨hkeys, hsteps⟩ := hs
+  have hnd : (Dict.keys M).Nodup := by rw [hkeys]; exact Merge.wfDict_keys_nodup P' hw
+  have hvals : ∀ kv ∈ M, Merge.wfVal kv.2 = true ∧ Merge.fixedVal kv.2 := by
+    intro kv hm
+    have hl := Merge.lookup_of_mem M kv.1 kv.2 hnd hm
+    have hn : kv.1 ∈ Dict.keys P' := by rw [← hkeys]; exact Merge.mem_keys_of_lookup hl
+    obtain ⟨kind, cfg, kd, outn, _, hP, hkd, hc, hM⟩ := hsteps kv.1 hn
+    rw [hl] at hM
+    have hkv : kv.2 = JVal.obj outn := by simpa using hM
+    have hmem := Merge.mem_of_lookup P' kv.1 _ hP
+    have hcw : Merge.wfDict cfg = true := by simpa using Merge.wfDict_mem hw hmem
+    have hcf : Merge.deepRwD cfg = cfg := by
+      have := Merge.fixedDict_mem hf hmem
+      unfold Merge.fixedVal at this; simpa using this
+    obtain ⟨_, _, _, _, _, _, _, _, _, how, hof⟩ := construct_facts (kindDesc_some hkd).1 hcw hcf hc
+    rw [hkv]
+    exact ⟨by simpa using how, by unfold Merge.fixedVal; simp [hof]⟩
+  exact ⟨(Merge.wfDict_iff M).2 ⟨hnd, fun kv hm => (hvals kv hm).1⟩,
+    Merge.fixedDict_of_mem M (fun kv hm => (hvals kv hm).2)⟩
+
 end Pandora.C05W
